@@ -109,12 +109,20 @@ TMeta == /\ IsEvent("meta")
             ELSE TRUE
          /\ Stutter
 
+\* movie-level accessors (C15: a function of the file, whichever reader instance is asked and whenever)
+TMovie == /\ IsEvent("movie")
+          /\ IF file.ok
+             THEN Check(ev.res = "ok" /\ ev.timescale = MovieTimescale(file) /\ ev.dur_ms = MovieDurationMs(file), "movie-level accessors",
+                        <<ev.res, ev.timescale, ev.dur_ms, MovieDurationMs(file)>>)
+             ELSE Check(ev.res # "panic", "movie-level accessor panicked", ev.res)
+          /\ Stutter
+
 \* determinism / equality observations made by the harness on opaque values (C15, C12)
 TSame == /\ IsEvent("same")
          /\ Check(ev.same, ev.what, ev.detail)
          /\ Stutter
 
-TNext == TReset \/ TFile \/ TOpen \/ TCount \/ TRead \/ TOffset \/ TMeta \/ TSame
+TNext == TReset \/ TFile \/ TOpen \/ TCount \/ TRead \/ TOffset \/ TMeta \/ TMovie \/ TSame
 TSpec == TInit /\ [][TNext]_vars
 
 Accepted == TLCGet("stats").diameter - 1 = Len(Rec)
